@@ -20,6 +20,7 @@ def showSErr : SErr → String
   | .typeMismatch => "typeMismatch" | .intOutOfRange => "intOutOfRange" | .rowTooLarge => "rowTooLarge"
   | .keyExists => "keyExists" | .decode => "decode" | .cellNotFound => "cellNotFound"
   | .pageTableEntryMissing => "pageTableEntryMissing"
+  | .fieldNotFound => "fieldNotFound" | .fieldAmbiguous => "fieldAmbiguous"
 
 def showExecErr : Exec.EErr → String
   | .tableNotExist => "tableNotExist" | .fieldNotFound => "fieldNotFound" | .fieldAmbiguous => "fieldAmbiguous"
